@@ -324,9 +324,14 @@ class DeterministicFiniteAutomaton(NondeterministicFiniteAutomaton):
             res = DeterministicFiniteAutomaton()
             res.add_start_state(State("Empty"))
             return res
-        # Remove unreachable
+        # Remove unreachable states and states which cannot reach a final state
         reachables = self._get_reachable_states()
         states = self._states.intersection(reachables)
+        states = states.intersection(self._get_states_leading_to_final())
+        if not self._start_state.issubset(states):
+            res = DeterministicFiniteAutomaton()
+            res.add_start_state(State("Empty"))
+            return res
         # Group the equivalent states
         partition = self._get_partition()
         groups = partition.get_groups()
